@@ -19,10 +19,10 @@ CLAIMS = {
               "uniqueness of generated ids (probabilistic), interleavings inside net/http, that ReverseProxy writes the backend's answer to the forwarder it is given.", "DESIGN.md section 4 C01"),
  "C02": claim("Proof for all header maps that the proxy hands the client request to the pending table with exactly its hop-by-hop fields (RFC 7230 list, written in the contract) removed and every other field value, method, URL, Host and body reference untouched (map-range loop invariant with deletion during iteration), that the fetch handler does not modify the pending request (frame), and that the agent changes only the user-id / Authorization fields before the handler chain.",
               "the four library (de)serialisations (Request.Write, http.ReadRequest, ReverseProxy, net/http server) and hence byte-exact bodies; header keys from net/http are assumed canonical.", "DESIGN.md section 4 C02"),
- "C03": claim("Proof on the response path's own code: the streaming response writer commits exactly once with the final status (1xx ignored), hands over a header map holding exactly the end-to-end fields of the handler's map (RFC hop-by-hop names removed, same number of values per field, each value copied by position in order), pre-declares exactly the non-hop-by-hop field names listed in comma-separated Trailer values (nested loop invariants), passes body chunks to the pipe unchanged, signals end-of-body once and only after trailer collection with no hop-by-hop trailer; the stand-alone proxy relays the status of the response received on the request's own channel.",
-              "Response.Write / ReadResponse / ReverseProxy / h2c (trusted), element-wise equality of copied values is carried by the per-Add monitor plus the trusted Header.Add semantics rather than by a quantified postcondition, the proxy's header/trailer copy loops (not yet under contract), timing between the handler and serialising goroutines.", "DESIGN.md section 4 C03"),
- "C05": claim("Safety core of a liveness property, proved: each body chunk is handed to the pipe in the same Write call (exactly one pipe write with the same slice), the buffered read-seeker performs exactly one source read per call and returns everything it read, the response is offered to the serialiser inside WriteHeader.",
-              "the liveness itself (bounded time, progress), ReverseProxy's flush loop and net/http's chunked writer, the reverse proxy's flush interval (hostProxy not yet under contract).", "DESIGN.md section 4 C05"),
+ "C03": claim("Proof on the response path's own code: the streaming response writer commits exactly once with the final status (1xx ignored), hands over a header map holding exactly the end-to-end fields of the handler's map (RFC hop-by-hop names removed, same number of values per field, each value copied by position in order), pre-declares exactly the non-hop-by-hop field names listed in comma-separated Trailer values (nested loop invariants), passes body chunks to the pipe unchanged, signals end-of-body once and only after trailer collection with no hop-by-hop trailer; the stand-alone proxy relays the status of the response received on the request's own channel, gives the client every non-hop-by-hop header field of that response with the very value list received (map-range invariant), adds nothing else but the chunking marker, and adds each value of each non-hop-by-hop trailer, in order, under the trailer prefix (nested count invariants + per-Add monitor); the agent's Close collects every value of every declared and prefixed trailer (count invariants over both collection loops).",
+              "Response.Write / ReadResponse / ReverseProxy / h2c (trusted), element-wise equality of copied values is carried by the per-Add monitors plus the trusted Header.Add semantics (append under the canonical key) rather than by a quantified postcondition, timing between the handler and serialising goroutines.", "DESIGN.md section 4 C03"),
+ "C05": claim("Safety core of a liveness property, proved: each body chunk is handed to the pipe in the same Write call (exactly one pipe write with the same slice), the buffered read-seeker performs exactly one source read per call and returns everything it read, the response is offered to the serialiser inside WriteHeader, and the handler chain is built around a reverse proxy whose FlushInterval is non-zero and at most 100 ms.",
+              "the liveness itself (bounded time, progress), ReverseProxy's flush loop and net/http's chunked writer, what ReverseProxy does between flushes.", "DESIGN.md section 4 C05"),
  "C04": claim("Proof over all histories of pending-list replies (loop invariant over ghost spawn counts and an abstract LRU view): an id is spawned at most once until the LRU evicts it; fetch, callback and backend hand-off happen exactly once per worker; the proxy enqueues each id once and a poller's reply is exactly the ids it received, in order.",
               "the groupcache LRU implementation (trusted abstract spec, eviction only on overflow), channel FIFO/exactly-once delivery (Go primitive), schedules of concurrent pollers.", "DESIGN.md section 4 C04"),
  "C06": claim("Deductive proof, for all buffer sizes, read sizes and stream contents, that the replay buffer's Read/Seek keep the abstract-stream invariant (bytes returned are the wrapped reader's stream from the logical position, no gap or duplicate; Seek succeeds only while everything consumed is still replayable); the retry loop makes at most three attempts, each starting at the first byte of the stream with the ids of this response, and stops on a failed seek. Known finding (listed, genuine, reproduced on the real code): the body is rewound while the previous attempt's transport may still be reading it.",
@@ -32,7 +32,7 @@ CLAIMS = {
  "C09": claim("Proof for all header maps and flag values that the request given to the handler chain carries exactly one user-id value equal to the proxy-asserted user when forwarding is on, and no Authorization field when stripping is on, with every other field unchanged.",
               "canonical header keys (net/http), what gorilla adds to a websocket handshake.", "DESIGN.md section 4 C09"),
  "C07": claim("No-panic / no-exit proof on the request path: every function under contract that a request worker, the polling loop, the response forwarder, the session and banner wrappers, the websocket shim handlers and the two websocket relay goroutines execute (73 functions) is proved free of nil dereference, out-of-range index/slice, nil-map write, failed type assertion, division by zero, unlock of an unlocked mutex, send on / close of a closed channel and explicit panic for all inputs satisfying its precondition, callers are checked against those preconditions, shared maps are proved accessed under their mutex, no os.Exit / log.Fatal is reachable from a request worker, and errors from fetch / forward / upload end only that worker. Known findings (listed, genuine, reproduced): Connection.Close and SendClientMessage can send on / close a channel that a concurrent Close has closed.",
-              "panics inside library code called within its stated preconditions (net/http, gorilla, lru, ReverseProxy), data races on memory not guarded by a declared mutex, goroutine schedules, the 502 answer itself (produced by httputil.ReverseProxy's default error handler; hostProxy's configuration is not under contract), requests 'served normally afterwards' (liveness).", "DESIGN.md section 4 C07"),
+              "panics inside library code called within its stated preconditions (net/http, gorilla, lru, ReverseProxy), data races on memory not guarded by a declared mutex, goroutine schedules, the 502 answer itself (produced by httputil.ReverseProxy's default error handler, which hostProxy is proved to leave in place), requests 'served normally afterwards' (liveness).", "DESIGN.md section 4 C07"),
  "C10": claim("Proof on the session layer's own code: the response writer commits once, moves every backend Set-Cookie into the jar of this writer's session under the request URL (https) and removes the whole Set-Cookie field, adds the agent's session cookie only when the client presented none, with the stated attributes and expiry now+lifetime; the request handler looks the jar up under the session id of this request (LRU accessed under the cache mutex), deletes the Cookie field, re-adds the client's cookies except the session cookie in order, then all cookies the jar returns for the request URL, and calls the wrapped handler once with this session's writer; disabled tracking returns the handler unwrapped.",
               "net/http/cookiejar semantics (trusted: SetCookies/Cookies per RFC 6265), the groupcache LRU (abstract spec), uuid uniqueness, the client seeing only headers written through this writer (net/http server), interleavings of concurrent requests beyond lock discipline.", "DESIGN.md section 4 C10"),
  "C11": claim("Proof on the relay code: the reader goroutine queues each message read from the backend once, with the type and byte slice ReadMessage returned, in read order; the writer goroutine writes each non-nil queued client message once with its own type and bytes in queue order; ReadServerMessages returns exactly the received sequence in order with nothing dropped; the data handler forwards the posted messages in array order; SendClientMessage queues one message per call iff it reports success, keeps the type, text as JSON string / binary as one-element array, base64 only under protocol version >= 1; header injection changes only JSON objects that have resource.headers and only by adding missing keys. Known finding (listed): SendClientMessage may send on a channel closed by a concurrent Close.",
